@@ -159,3 +159,12 @@ func init() {
 		NotCovered: "every clause about concrete ids and points (containment of a point by its leaf, neighbour adjacency, token round trips, range partition): identities of 64-bit and float arithmetic over all inputs.",
 	}
 }
+
+func init() {
+	Properties["C18"] = PropertySpec{
+		Rules: []string{"R-SIBTREE", "R-AREASIGN", "R-CONST"},
+		Explanation: "Narrow claim. The scalar and vector surface integrals are the same triangle-fan walk; polygon area and centroid weight loops by the same sign; Loop.Area consults the curvature-based normalisation test exactly in the two ambiguous bands; " +
+			"the turning angle starts canonically, uses compensated summation and clamps to +-(2*Pi-4*epsilon); the triangle-area thresholds and the per-vertex error bound are unchanged.",
+		NotCovered: "every numerical clause: the value of an area, its agreement with a triangulation, additivity with the inverse, accuracy for slivers.",
+	}
+}
